@@ -331,6 +331,32 @@ def runSchema : P String := do
         | none, _ => "ok"
     pure s!"ok {schemaMutToString S} {pcfStr} {tail} # {verdict}"
 
+/-- Bisimilarity of two node graphs from their roots: same kind, same names / symbols / sizes /
+    logical types, children pairwise bisimilar (pairs already assumed are not revisited). -/
+partial def bisimGo (A B : SchemaMut) : List (Nat × Nat) → List (Nat × Nat) → Bool
+  | [], _ => true
+  | (i, j) :: todo, seen =>
+    if seen.contains (i, j) then bisimGo A B todo seen else
+    match A[i]?, B[j]? with
+    | some a, some b =>
+      if a.logical != b.logical then false else
+      let seen := (i, j) :: seen
+      (match a.type, b.type with
+        | .null, .null | .boolean, .boolean | .int, .int | .long, .long | .float, .float
+        | .double, .double | .bytes, .bytes | .string, .string => bisimGo A B todo seen
+        | .array x, .array y => bisimGo A B ((x, y) :: todo) seen
+        | .map x, .map y => bisimGo A B ((x, y) :: todo) seen
+        | .union xs, .union ys => xs.length == ys.length && bisimGo A B (xs.zip ys ++ todo) seen
+        | .record n1 f1, .record n2 f2 =>
+          n1.fq == n2.fq && f1.map (·.1) == f2.map (·.1)
+            && bisimGo A B ((f1.map (·.2)).zip (f2.map (·.2)) ++ todo) seen
+        | .enum n1 s1, .enum n2 s2 => n1.fq == n2.fq && s1 == s2 && bisimGo A B todo seen
+        | .fixed n1 z1, .fixed n2 z2 => n1.fq == n2.fq && z1 == z2 && bisimGo A B todo seen
+        | _, _ => false)
+    | _, _ => false
+
+def bisimilar (A B : SchemaMut) : Bool := bisimGo A B [(0, 0)] []
+
 /-- `graph <unique> <schema>`: a node graph assembled through the builder API. Oracle (C09, C19):
     every operation returns; with distinct fullnames the regenerated JSON parses back to a graph
     with the same canonical form, and rendering it again gives the same document. -/
@@ -366,7 +392,10 @@ def runGraph : P String := do
               else if idem ≠ "render-idempotent" then "VIOLATION rendering the re-parsed schema gives another document (structure or logical types not preserved)"
               else "ok"
             | _, _ => "VIOLATION canonical form unavailable although the JSON was regenerated"
-        (s!"reparse-ok {p2s} {idem}", v)
+        let v := if v = "ok" ∧ unique ∧ !bisimilar S S2 then
+            "VIOLATION the regenerated JSON parses back to a graph that is not isomorphic to the one it was generated from"
+          else v
+        (s!"reparse-ok {schemaMutToString S2} {p2s} {idem}", v)
   let panics := [pcfR.toOption.isNone && (match pcfR with | .error .panic => true | _ => false),
                  (match jsonR with | .error .panic => true | _ => false)]
   let verdict := if panics.any id then "VIOLATION model out of fuel" else verdictRe
